@@ -3,12 +3,4 @@ package main
 
 import "verifharness/drv"
 
-var extra = map[string]drv.Cmd{}
-
-func main() {
-	cmds := map[string]drv.Cmd{"c14": runC14, "c14-exp": runExp}
-	for k, v := range extra {
-		cmds[k] = v
-	}
-	drv.Main(cmds)
-}
+func main() { drv.Main(map[string]drv.Cmd{"c14": runC14}) }
